@@ -353,7 +353,7 @@ func mintBatch(dir string, seed int64, cases []lockCase, idx []int, out []lockLi
 					signer = keyFor("P1")
 				}
 				switch c.OSig {
-				case "valid", "onemissing":
+				case "valid", "onemissing", "laterbad", "firstbad", "latermissing":
 					var e error
 					if c.Kind == "P2PK" {
 						bms, e = nut11.AddSignatureToOutputs(bms, signer)
@@ -366,6 +366,41 @@ func mintBatch(dir string, seed int64, cases []lockCase, idx []int, out []lockLi
 					}
 					if c.OSig == "onemissing" {
 						bms[len(bms)-1].Witness = ""
+					}
+					// witnesses that differ per output: every output is validly signed, but not every one carries what SIG_ALL
+					// demands (HTLC: the right preimage; P2PK: a signature of an authorised key)
+					spoil := func(k int, missing bool) {
+						if c.Kind == "HTLC" {
+							var hw nut14.HTLCWitness
+							json.Unmarshal([]byte(bms[k].Witness), &hw)
+							if missing {
+								b, _ := json.Marshal(map[string]any{"signatures": hw.Signatures})
+								bms[k].Witness = string(b)
+							} else {
+								hw.Preimage = strings.Repeat("5a", 32)
+								b, _ := json.Marshal(hw)
+								bms[k].Witness = string(b)
+							}
+						} else if missing {
+							bms[k].Witness = ""
+						} else {
+							one := cashu.BlindedMessages{bms[k]}
+							one[0].Witness = ""
+							one, _ = nut11.AddSignatureToOutputs(one, keyFor("F"))
+							bms[k].Witness = one[0].Witness
+						}
+					}
+					switch c.OSig {
+					case "laterbad":
+						for k := 1; k < len(bms); k++ {
+							spoil(k, false)
+						}
+					case "latermissing":
+						for k := 1; k < len(bms); k++ {
+							spoil(k, true)
+						}
+					case "firstbad":
+						spoil(0, false)
 					}
 				case "garbage":
 					for k := range bms {
